@@ -399,12 +399,15 @@ class kFlowDecomp(pathmodel.AbstractPathModelDAG):
                     constraint_length = len(subpath)
                     # And the fraction of edges that we need to cover is self.subpath_constraints_coverage
                     coverage_fraction = self.subpath_constraints_coverage
+                    # (every edge counts 1, also when a length attribute is present)
+                    edge_lengths = {}
                 else:
                     constraint_length = sum(self.G[u][v].get(self.length_attr, 1) for (u,v) in subpath if self.G.has_edge(u, v))
                     coverage_fraction = self.subpath_constraints_coverage_length
+                    edge_lengths = {(u,v): self.G[u][v].get(self.length_attr, 1) for (u,v) in subpath if self.G.has_edge(u, v)}
                 # If the subpath is not covered enough by the greedy decomposition, we return False
                 # (edges not in the graph are reported as ValueError by the constraint validation of the base class)
-                if gu.max_occurrence(subpath, paths, edge_lengths={(u,v): self.G[u][v].get(self.length_attr, 1) for (u,v) in subpath if self.G.has_edge(u, v)}) < constraint_length * coverage_fraction:
+                if gu.max_occurrence(subpath, paths, edge_lengths=edge_lengths) < constraint_length * coverage_fraction:
                     return False
         
         # The greedy weights have the numeric type of the input flow values; with weight_type int they must be
